@@ -74,22 +74,22 @@ impl<const L: usize> DynEnv for Env<L> {
     }
     fn step(&mut self, rng: &mut dyn RngCore) {
         let mut r = rng;
-        Env::step(self, &mut r)
+        let _ = Env::step(self, &mut r);
     }
     fn enable_trading(&mut self) {
-        Env::enable_trading(self)
+        let _ = Env::enable_trading(self);
     }
     fn disable_trading(&mut self) {
-        Env::disable_trading(self)
+        let _ = Env::disable_trading(self);
     }
     fn place_order(&mut self, _a: usize, bid: bool, vol: u32, trader: u32, price: Option<u32>) -> Result<(usize, usize), String> {
         Env::place_order(self, side_of(bid), vol, trader, price).map(|i| (0, i)).map_err(|e| e.to_string())
     }
     fn cancel_order(&mut self, id: (usize, usize)) {
-        Env::cancel_order(self, id.1)
+        let _ = Env::cancel_order(self, id.1);
     }
     fn modify_order(&mut self, id: (usize, usize), price: Option<u32>, vol: Option<u32>) {
-        Env::modify_order(self, id.1, price, vol)
+        let _ = Env::modify_order(self, id.1, price, vol);
     }
     fn book(&self, _a: usize) -> &dyn DynBook {
         self.get_orderbook()
@@ -123,22 +123,22 @@ impl<const A: usize, const L: usize> DynEnv for MarketEnv<A, L> {
     }
     fn step(&mut self, rng: &mut dyn RngCore) {
         let mut r = rng;
-        MarketEnv::step(self, &mut r)
+        let _ = MarketEnv::step(self, &mut r);
     }
     fn enable_trading(&mut self) {
-        MarketEnv::enable_trading(self)
+        let _ = MarketEnv::enable_trading(self);
     }
     fn disable_trading(&mut self) {
-        MarketEnv::disable_trading(self)
+        let _ = MarketEnv::disable_trading(self);
     }
     fn place_order(&mut self, a: usize, bid: bool, vol: u32, trader: u32, price: Option<u32>) -> Result<(usize, usize), String> {
         MarketEnv::place_order(self, a, side_of(bid), vol, trader, price).map_err(|e| e.to_string())
     }
     fn cancel_order(&mut self, id: (usize, usize)) {
-        MarketEnv::cancel_order(self, id)
+        let _ = MarketEnv::cancel_order(self, id);
     }
     fn modify_order(&mut self, id: (usize, usize), price: Option<u32>, vol: Option<u32>) {
-        MarketEnv::modify_order(self, id, price, vol)
+        let _ = MarketEnv::modify_order(self, id, price, vol);
     }
     fn book(&self, a: usize) -> &dyn DynBook {
         self.get_market().get_order_book(a)
